@@ -1,0 +1,12 @@
+//go:build verif
+
+package types
+
+// Contracts for the deductive verifier in /verif (govc). Comment-only; compiled only with -tags verif.
+// Ghost vocabulary for the core keepers the interchain-accounts module depends on (expected_keepers.go).
+
+//@ spec func icaChannelOf(w World, portID string, channelID string) channeltypes.Channel
+//@ spec func icaHasChannel(w World, portID string, channelID string) bool
+
+//@ contract interface ChannelKeeper.GetChannel
+//@   ensures result0 == icaChannelOf(world(ctx), srcPort, srcChan) && result1 == icaHasChannel(world(ctx), srcPort, srcChan)
